@@ -617,7 +617,7 @@ func txCodecs() []*codec {
 		}
 		return vs
 	})
-	withJSON[transaction.NotValidBefore](nvb).withSizeVar().cheap = true
+	withJSON[transaction.NotValidBefore](nvb).withSizeVar()
 	out = append(out, nvb)
 	cf := ser[transaction.Conflicts]("transaction.Conflicts", "pkg/core/transaction", func(bool) []*transaction.Conflicts {
 		var vs []*transaction.Conflicts
@@ -626,7 +626,7 @@ func txCodecs() []*codec {
 		}
 		return vs
 	})
-	withJSON[transaction.Conflicts](cf).withSizeVar().cheap = true
+	withJSON[transaction.Conflicts](cf).withSizeVar()
 	out = append(out, cf)
 	na := ser[transaction.NotaryAssisted]("transaction.NotaryAssisted", "pkg/core/transaction", func(bool) []*transaction.NotaryAssisted {
 		var vs []*transaction.NotaryAssisted
@@ -635,7 +635,7 @@ func txCodecs() []*codec {
 		}
 		return vs
 	})
-	withJSON[transaction.NotaryAssisted](na).withSizeVar().cheap = true
+	withJSON[transaction.NotaryAssisted](na).withSizeVar()
 	out = append(out, na)
 	rs := ser[transaction.Reserved]("transaction.Reserved", "pkg/core/transaction", func(bool) []*transaction.Reserved {
 		var vs []*transaction.Reserved
